@@ -208,9 +208,74 @@ def whole_runs():
     return None, None
 
 
+def kernel_uses_own_mode():
+    """inside the kernel: with labels that leave gaps in the label range ({0, 2}, {1, 3}, {0, 1, 2, 4}) every walker's proposal is built from
+    the mean / scale matrix of the mode its label names.  One accept-everything sweep of the real run loop with the normal draws fixed;
+    the moved walker must sit at the specification's proposal for ITS mode (tpCN: the scale draw is fixed too)."""
+    from tempest.mcmc import TPCNRunner, RWMRunner
+    from tempest.modes import ModeStatistics
+    for kernel, K, occupied in itertools.product(("rwm", "tpcn"), (3, 5), ((0, 2), (1,), "all-but-one")):
+        rng = np.random.RandomState(3)
+        d = 2
+        occ = [k for k in range(K) if k != K - 2] if occupied == "all-but-one" else [k for k in occupied if k < K]
+        means = rng.uniform(0.4, 0.6, (K, d))
+        covs = np.array([np.diag([0.002 * (1 + 3 * k), 0.004 / (1 + k)]) + 0.0005 * k * np.array([[0, 1], [1, 0]]) for k in range(K)])
+        ms = ModeStatistics(means, covs, np.full(K, 5.0))
+        n = 12
+        asg = np.array([occ[i % len(occ)] for i in range(n)])
+        u = means[asg] + 0.01 * rng.standard_normal((n, d))
+        flat = lambda x: (np.zeros(len(np.atleast_2d(x))), None)
+        cls = TPCNRunner if kernel == "tpcn" else RWMRunner
+        r = cls(u.copy(), u.copy(), np.zeros(n), None, asg.copy(), 1.0, ms, flat, lambda v: v, None, n_steps=1, n_max=1, periodic=None, reflective=None, verbose=False)
+        sg = 0.5
+        try:
+            r.sigmas = np.full(np.shape(r.sigmas), sg) if np.ndim(r.sigmas) else sg
+        except Exception:
+            pass
+        z = np.array([0.8, -0.6])
+        o_randn, o_rand, o_gamma = np.random.randn, np.random.rand, np.random.gamma
+        np.random.randn = lambda *s_: (np.broadcast_to(z, s_).copy() if len(s_) == 2 else z.copy())
+        np.random.rand = lambda *s_: (np.zeros(s_) if s_ else 0.0)
+        np.random.gamma = lambda shape=None, scale=1.0, size=None: (np.ones(size) if size is not None else (np.ones(np.shape(shape)) if np.ndim(shape) else 1.0))
+        r._check_convergence = lambda acc, r=r: r.iteration >= 1
+        r._adapt_sigma = lambda *a, **k: None
+        try:
+            r.run()
+        except Exception as e:
+            return f"{kernel}, K={K}, occupied labels {occ}: run raised {type(e).__name__}: {e}", {"kernel": kernel, "K": K, "occupied": occ}
+        finally:
+            np.random.randn, np.random.rand, np.random.gamma = o_randn, o_rand, o_gamma
+        got = np.asarray(r.u)
+        for k in range(n):
+            c = asg[k]
+            L = np.linalg.cholesky(covs[c])
+            if kernel == "rwm":
+                want = u[k] + sg * (L @ z)
+            else:
+                want = means[c] + np.sqrt(1 - sg ** 2) * (u[k] - means[c]) + sg * (L @ z)
+            if np.any(want < 0) or np.any(want > 1):
+                continue
+            if not np.allclose(got[k], want, rtol=1e-9, atol=1e-12):
+                others = [j for j in range(K) if j != c and np.allclose(got[k], (u[k] + sg * (np.linalg.cholesky(covs[j]) @ z)) if kernel == "rwm" else
+                                                                     (means[j] + np.sqrt(1 - sg ** 2) * (u[k] - means[j]) + sg * (np.linalg.cholesky(covs[j]) @ z)), rtol=1e-9, atol=1e-12)]
+                return (f"{kernel} kernel, K={K} modes, occupied labels {sorted(set(occ))}: walker {k} carries label {c} but was moved with "
+                        f"{'the statistics of mode ' + str(others[0]) if others else 'statistics of no single mode'} (got {got[k].round(6).tolist()}, mode {c} gives {want.round(6).tolist()})",
+                        {"kernel": kernel, "K": K, "occupied": occ, "walker": k})
+    return None, None
+
+
 def main():
     p = json.load(open(sys.argv[1]))
     tried = 0
+    try:
+        r, what = kernel_uses_own_mode()
+    except Exception as e:
+        r, what = None, None       # the kernel's constructor / hooks changed: the scenario does not apply
+        if not isinstance(e, (TypeError, AttributeError)):
+            r, what = f"kernel-level scenario raised {type(e).__name__}: {e}", {"case": "kernel_uses_own_mode"}
+    if r:
+        print(json.dumps({"reproduced": True, "tried": 1, "detail": r, "input": what}, default=str))
+        return
     inp = p.get("input") or {}
     three = dict(centers=[[0.2, 0.2], [0.8, 0.8], [0.2, 0.8]], spread=0.03, frac=[1, 1, 1])
     two = dict(centers=[[0.2, 0.2], [0.8, 0.8]], spread=0.03, frac=[1, 1])
